@@ -341,5 +341,6 @@ func TestSimWorker(t *testing.T) {
 		t.Skip("simulation worker: set VERIF_HARNESS")
 	}
 	simT = t
-	os.Exit(simk.WorkerMain([]*simk.Harness{{Name: "mtcp", Gen: genMtcpCase, Run: runMtcpCase}}))
+	os.Exit(simk.WorkerMain([]*simk.Harness{{Name: "mtcp", Gen: genMtcpCase, Run: runMtcpCase}, {Name: "crc", Gen: genCrcCase, Run: runCrcCase},
+		{Name: "dec-mtcp", Gen: genDecCase, Run: runDecCase}}))
 }
